@@ -12,7 +12,7 @@ import os, re, sys
 import hashes
 
 MAJOR = {"UNSIGNED": "T_UNSIGNED", "NEGATIVE": "T_NEGATIVE", "BYTE_STRING": "T_BYTES", "TEXT_STRING": "T_TEXT", "ARRAY": "T_ARRAY", "MAP": "T_MAP", "TAG": "T_TAG", "SIMPLE": "T_SIMPLE"}
-BIN = {"<": "lt", "<=": "le", ">": "gt", ">=": "ge", "==": "eq", "!=": "ne", "|": "or", "&": "and", "+": "add", "-": "sub", "=": "assign", "&&": "land", "||": "lor", "*": "mul", ">>": "shr", "<<": "shl"}
+BIN = {"<": "lt", "<=": "le", ">": "gt", ">=": "ge", "==": "eq", "!=": "ne", "|": "or", "&": "and", "+": "add", "-": "sub", "=": "assign", "&&": "land", "||": "lor", "*": "mul", ">>": "shr", "<<": "shl", "/": "div", "%": "mod"}
 UN = {"~": "not", "!": "lnot", "-": "neg", "+": "pos", "*": "deref", "&": "addr"}
 SKIP = ("ImplicitCastExpr", "ParenExpr", "ExprWithCleanups", "MaterializeTemporaryExpr", "CXXBindTemporaryExpr", "ConstantExpr")
 
